@@ -39,6 +39,54 @@ func checkC11(c *core.Ctx) {
 	c.Floor("attribute_loops", 5)
 	attributeMatrix(c, p)
 	flagDispatch(c, p, "R3")
+	whitespaceAgreement(c, p)
+}
+
+// whitespaceAgreement: R4. Two places decide what is insignificant
+// whitespace: the token tree's skip set and skipFollowingWhitespace (which
+// also swallows the newline that ends a block comment's line). The second
+// must skip everything the first does, or a doc comment is kept or dropped
+// depending on whether a tab or a carriage return precedes the line break.
+func whitespaceAgreement(c *core.Ctx, p *load.Prog) {
+	pkg := p.Bebop()
+	info := pkg.TypesInfo
+	tree := p.FuncDecl(pkg, "newTokenTree")
+	skip := p.FuncDecl(pkg, "tokenReader.skipFollowingWhitespace")
+	if tree == nil || skip == nil {
+		c.Undecide("newTokenTree / skipFollowingWhitespace not found")
+		return
+	}
+	treeSet := map[int]bool{}
+	ast.Inspect(tree.Body, func(n ast.Node) bool {
+		if call, ok := n.(*ast.CallExpr); ok && isMethodCall(call, "tt", "skip") && len(call.Args) == 1 {
+			if v, ok := constInt(info, call.Args[0]); ok {
+				treeSet[v] = true
+			}
+		}
+		return true
+	})
+	skipSet := map[int]bool{}
+	ast.Inspect(skip.Body, func(n ast.Node) bool {
+		if cc, ok := n.(*ast.CaseClause); ok {
+			for _, e := range cc.List {
+				if v, ok := constInt(info, e); ok {
+					skipSet[v] = true
+				}
+			}
+		}
+		return true
+	})
+	c.Count("whitespace_bytes", len(treeSet))
+	c.Floor("whitespace_bytes", 3)
+	var missing []string
+	for b := range treeSet {
+		if !skipSet[b] {
+			missing = append(missing, fmt.Sprintf("%q", rune(b)))
+		}
+	}
+	sort.Strings(missing)
+	c.Check("R4", "whitespace after a block comment is skipped like whitespace elsewhere", p.Pos(skip.Pos()), len(missing) == 0 && skipSet['\n'],
+		fmt.Sprintf("skipFollowingWhitespace does not skip %v although the token tree treats it as whitespace (and must skip the line break): `/* doc */<that byte><newline>` yields a Newline token that detaches the comment from its definition, so the parse depends on horizontal whitespace / CRLF", missing))
 }
 
 type pstate struct {
